@@ -83,7 +83,13 @@ func (n *node[T]) buildMethods() {
 		n.methodIndex += methodIndexMap[http.MethodTrace]
 	}
 	buildMethodIndexes(n.methodIndex)
-	n.allowIndex.Store(int64(n.methodIndex))
+
+	// 已经没有任何处理函数的节点不再是路由项，只有在此之前已经匹配到该节点的请求还会访问它，
+	// 这些请求的 OPTIONS 和 405 处理函数在锁的范围之外读取 AllowHeader，
+	// 保留最后一次的值，而不是让它们输出一个空的 Allow 报头，与 Clean 的行为一致。
+	if n.methodIndex > 0 {
+		n.allowIndex.Store(int64(n.methodIndex))
+	}
 }
 
 func (n *node[T]) AllowHeader() string {
